@@ -682,8 +682,12 @@ pub fn c14_configs(thorough: bool) -> Vec<EpCfg> {
                     peer_ping: true,
                     spontaneous_close: true,
                     pub_any_status: true,
+                    // extended authentication: an 8-byte AUTH, also while the CONNACK is outstanding (a server
+                    // knows the client's limit from the CONNECT on)
+                    auth: true,
                     ..Alph::default()
                 };
+                c.auth_method = true;
                 c.offline = true;
                 // the peer's limit arrives in CONNACK (client) / CONNECT (server); a second profile without
                 // limit lets packets be stored first and meet the limit only on resume
@@ -1040,6 +1044,18 @@ pub fn c19_configs(thorough: bool) -> Vec<EpCfg> {
                             let mut f = b.clone();
                             f.extend_from_slice(n);
                             st.push((format!("{bn} + {nn} in one buffer"), f));
+                        }
+                    }
+                    // frames whose body is well formed and automatically answered, with fixed-header flags that
+                    // MQTT reserves (the library does not validate them today; if it ever reports them, it must
+                    // not go on to answer behind the close request)
+                    for (nn, n) in &next {
+                        for fl in [0x01u8, 0x0f] {
+                            let mut f = n.clone();
+                            if f[0] >> 4 != 3 {
+                                f[0] = (f[0] & 0xf0) | ((f[0] & 0x0f) ^ fl);
+                                st.push((format!("{nn} with reserved flags ^{fl:#x}"), f));
+                            }
                         }
                     }
                     c.stimuli = std::sync::Arc::new(st);
